@@ -88,16 +88,23 @@ def run(ctx):
     wd = ctx.drv("weights", {}, prog="gen")[0]
     names, default = wd["names"], wd["default"]
 
-    # ---- model level: all coin outcomes
-    mc = ctx.tlc("Randomized_MC", cfg="Randomized_MC_basic" if ctx.quick else "Randomized_MC", workers=4 if ctx.quick else 8,
-                 timeout=1500, coverage=True, heap="6g")
+    # ---- model level: all coin outcomes (the three TLC runs go in parallel)
+    def run_mc():
+        return ctx.tlc("Randomized_MC", cfg="Randomized_MC_basic" if ctx.quick else "Randomized_MC", workers=4 if ctx.quick else 8,
+                       timeout=1500, coverage=True, heap="6g")
+    def run_d14(cfg):
+        return ctx.tlc("Randomized_MC", cfg=cfg, workers=1, timeout=600, count=False, dfs=True)
+    with cf.ThreadPoolExecutor(max_workers=3) as ex:
+        f_mc = ex.submit(run_mc)
+        f_a = ex.submit(run_d14, "Randomized_MC_D14a")
+        f_b = ex.submit(run_d14, "Randomized_MC_D14b")
+        mc, ra, rb = f_mc.result(), f_a.result(), f_b.result()
     model_viol = list(mc.violated)
     for a in GEN_ACTIONS:
         if mc.coverage.get(a, 0) == 0:
             raise vlib.Machinery("C09 vacuity: action %s of Randomized was never taken in the exhaustive run" % a)
     model_d14 = {}
-    for cfg, inv in (("Randomized_MC_D14a", "InvSharesListed"), ("Randomized_MC_D14b", "InvHybridHasShare")):
-        r = ctx.tlc("Randomized_MC", cfg=cfg, workers=1, timeout=600, count=False)
+    for r, inv in ((ra, "InvSharesListed"), (rb, "InvHybridHasShare")):
         model_d14[inv] = {"violated": inv in r.violated, "counterexample_decisions": cex_vector(r.out) if inv in r.violated else {}}
 
     # ---- real generated specs
